@@ -69,14 +69,20 @@ class ParallelMailboxLock:
         assert self.lock_file.minimum <= no < self.lock_file.maximum
         self.no = no - self.lock_file.minimum
         self.counter = None
+        self.lock = Lock()  # file locks do not exclude tasks of one process
 
     async def __aenter__(self):
+        await self.lock.acquire()
         while True:
             try:
                 fcntl.lockf(self.lock_file.fd, fcntl.LOCK_NB | fcntl.LOCK_EX,
                             1, self.no)
             except OSError:
-                await sleep(0)
+                try:
+                    await sleep(0)
+                except BaseException:  # cancelled while waiting
+                    self.lock.release()
+                    raise
                 continue
             break
         # the file may still be empty while its creator initializes it
@@ -87,6 +93,7 @@ class ParallelMailboxLock:
         os.pwrite(self.lock_file.fd, bytes((self.counter,)), self.no)
         fcntl.lockf(self.lock_file.fd, fcntl.LOCK_UN, 1, self.no)
         self.counter = None
+        self.lock.release()
 
     def next_counter(self):
         ret = self.counter
